@@ -227,11 +227,26 @@ def oracle_c08(tr, fail, stats):
     kinds = {tg["tag"]: tagger_kind(tg) for tg in meta["taggers"]}
     created = {}      # hid -> (leg index, ids, snapshot at creation)
     pre = tr["initial"]
+    pend = {}
     for i, leg in enumerate(tr["legs"]):
         for h, ids in leg["created"]:
             created[h] = (i, ids, pre)
         h = leg["chosen"]
         tag = meta["handlers"][h][0]
+        # "no candidate event survives in the scheduler after …": if the handler that is served has a current candidate that is NOT an
+        # earliest one, what the scheduler served was an older, trashed candidate of that handler that survived
+        pend.update(leg["times"])
+        mine = pend.get(h)
+        if mine is not None and kinds[tag] == "interaction":
+            early = [(g, x) for g, x in pend.items() if g != h and tlt(x, mine)]
+            if early:
+                fail("C08:trashed-candidate-served-by-the-scheduler",
+                     {"ini": meta["ini"], "seed": meta["seed"], "leg": i, "handler": meta["handlers"][h], "current_candidate": mine,
+                      "earlier_pending": [[meta["handlers"][g], x] for g, x in early[:3]], "job": tr.get("job")},
+                     "an interaction handler was served although its current candidate is not the earliest pending one: an older candidate "
+                     "of it, trashed when the motion changed, survived in the scheduler")
+        for g in leg["trashed"]:
+            pend.pop(g, None)
         if "pending" in leg and h not in leg["pending"].get(tag, []):
             fail("C08:committed-event-of-a-trashed-handler",
                  {"ini": meta["ini"], "seed": meta["seed"], "leg": i, "handler": meta["handlers"][h], "pending": leg["pending"].get(tag),
